@@ -307,6 +307,32 @@ func genC07Script(r *rng, id string, cnt counters, emit func(line, out string)) 
 	return e
 }
 
+// genDExhaustive enumerates every operation sequence over a small operand alphabet for the
+// smallest geometries: case idx = (geometry, sequence in base len(ops), all lengths up to the bound).
+func genDExhaustive(idx int, id string, cnt counters, emit func(line, out string)) *dExec {
+	geos := [][3]int{{1, 2, 0}, {2, 3, 0}, {2, 5, 0}, {3, 4, 9}}
+	ops := []string{"wb 61", "w 6162", "w 636465", "wm 1 1", "wm 3 1", "wm 2 2", "wblk 1:2:1:0 61",
+		"wblk 0:1:2:0;1:1:1:0 6162", "rd 1", "rd 9", "wt -", "reset"}
+	g := geos[idx%len(geos)]
+	idx /= len(geos)
+	n, x, pw := 0, idx, 1
+	for x >= pw {
+		x -= pw
+		pw *= len(ops)
+		n++
+	}
+	header := fmt.Sprintf("S %s D %d %d %d", id, g[0], g[1], g[2])
+	e, st := newDExec(header, cnt)
+	emit(header, st)
+	for i := 0; i < n && !e.dead; i++ {
+		l := ops[x%len(ops)]
+		x /= len(ops)
+		emit(l, e.step(l))
+	}
+	emit("E", "E")
+	return e
+}
+
 func dSuite(pf dProfile, deep []string) suiteFn {
 	return func(r *rng, id string, cnt counters, emit func(line, out string)) ([]finding, bool) {
 		before := map[string]int{}
@@ -330,6 +356,12 @@ func init() {
 	suites["d-counts"] = dSuite(dProfile{maxOps: 60, malformed: 5}, []string{"d.wblk.shrunk-after-read"})
 	suites["dd"] = dSuite(dProfile{dd: true, maxOps: 30, malformed: 5, faults: 0}, []string{"dd.write.oversize", "d.wblk.ok"})
 	suites["dd-faults"] = dSuite(dProfile{dd: true, maxOps: 30, malformed: 0, faults: 35}, []string{"dd.flush.err", "dd.flush.ok"})
+	suites["d-exhaustive"] = func(r *rng, id string, cnt counters, emit func(line, out string)) ([]finding, bool) {
+		var sh, k int
+		fmt.Sscanf(id, "%d.%d", &sh, &k)
+		e := genDExhaustive(k*8+sh, id, cnt, emit)
+		return e.finds, true
+	}
 	suites["c07"] = func(r *rng, id string, cnt counters, emit func(line, out string)) ([]finding, bool) {
 		b := cnt["c07.roundtrip.ok"] + cnt["c07.known.neverfits"]
 		e := genC07Script(r, id, cnt, emit)
